@@ -149,6 +149,14 @@ pub(crate) async fn fpre(channel: &(impl Channel + Send), parties: usize) -> Res
     }
     let mut has_cheated = false;
     for share in shares.iter() {
+        // a share whose MAC/key vector does not have one slot per party cannot be checked (and must not be indexed)
+        if share
+            .iter()
+            .any(|(Share(_, Auth(a)), Share(_, Auth(b)))| a.len() != parties || b.len() != parties)
+        {
+            has_cheated = true;
+            continue;
+        }
         for (i, (a, b)) in share.iter().enumerate() {
             for (Share(bit, Auth(macs_i)), round) in [(a, 0), (b, 1)] {
                 for (j, (mac_i, _)) in macs_i.iter().enumerate() {
